@@ -10,6 +10,12 @@ pub mod util;
 mod c09;
 #[path = "c08.rs"]
 mod c08;
+#[path = "c11.rs"]
+mod c11;
+#[path = "c12.rs"]
+mod c12;
+#[path = "c05.rs"]
+mod c05;
 
 pub async fn main(monitor: String) -> Result<(), easy_error::Terminator> {
     let args = util::Args::parse();
@@ -18,6 +24,9 @@ pub async fn main(monitor: String) -> Result<(), easy_error::Terminator> {
         "c09" => c09::run(&args),
         "c08" => c08::run(&args),
         "c08depth" => c08::run_depth(&args),
+        "c11" => c11::run(&args),
+        "c12" => c12::run(&args).await,
+        "c05" => c05::run(&args).await,
         other => {
             eprintln!("unknown monitor {}", other);
             std::process::exit(3);
